@@ -22,3 +22,4 @@ def run(cx):
     textcomp.spec_readers_vs_external(cx, textcomp.gen_strings(cx, 3000, 50000))
     rtcomp.run_rt(cx, laws=("independent",))
     rtxcomp.run_rtx(cx, laws=("independent",))
+    rtxcomp.run_opaq(cx)
